@@ -53,7 +53,7 @@ struct Case {
     std::string variant;
     std::vector<TaskPlan> tasks;
     // scheduling
-    int sched_mode = 0; uint64_t sched_seed = 0; double w_fine = 0.25, w_mid = 0.25, w_coarse = 0.25; int pct_d = 2;
+    int sched_mode = 0; uint64_t sched_seed = 0; double w_fine = 0.25, w_mid = 0.25, w_coarse = 0.25; int pct_d = 2; uint64_t pct_span = 200000;
     std::vector<SliceRec> schedule;     // recorded schedule (replay) - empty = draw from sched_seed
     // differential environments (C07, C08)
     std::vector<EnvSpec> envs;
